@@ -60,6 +60,8 @@ PF = gen.Profile(
 )
 PF_ANY = replace(PF, starts=[], start_any=True)
 PF_SUB = replace(PF, subslot=True, odd_eff=True, max_slots=10)
+PF_GAPMY = replace(PF, resolutions=[60], durs=[(80, "w"), (120, "w"), (500, "d")], max_tasks=5, max_res=2, gap_units=("m", "y", "w"), deps=0.8, calendars=False,
+                   alap_project=False, alap_task=False)
 PF_LONG = replace(PF, resolutions=[60], durs=[(60, "w"), (110, "w"), (400, "d")], max_tasks=5, max_res=2, max_slots=60, calendars=False)
 
 
@@ -150,6 +152,8 @@ def campaigns(tier):
         Campaign("uniform", "hyp", evaluate=eval_pair, strategy=lambda: pairs(PF_ANY), n=400 if q else 8000,
                  describe="project start uniform in 2020-2033"),
         Campaign("subslot", "hyp", evaluate=eval_pair, strategy=lambda: pairs(PF_SUB), n=300 if q else 6000, describe="sub-slot efforts"),
+        Campaign("gap_month_year", "hyp", evaluate=eval_pair, strategy=lambda: pairs(PF_GAPMY), n=100 if q else 2500,
+                 describe="gapduration written in months / years (fixed-length units: the gap must not depend on the calendar position)"),
         Campaign("long", "hyp", evaluate=eval_pair, strategy=lambda: pairs(PF_LONG), n=60 if q else 1500,
                  describe="projects spanning more than a year (several ISO years inside one horizon)"),
     ]
